@@ -60,11 +60,12 @@ def real_event_nd(ev, max_order=8):
 
 _REUSED = {}   # max_order -> (estimator object, history of (first_method, events) it has already served)
 _CALLS = [0]
+_LAST_CONTAINER = []   # kinds of event containers used by the calls so far (last two = last real_all)
 _MODE_RNG = __import__("random").Random(20260930)   # which calls re-use an object / come after a failed call: independent
                                                     # of the case generator, so no modular pattern can hide a class
 
 
-def real_all(evs, max_order, mode="auto", corr_first=None, do_poison=None):
+def real_all(evs, max_order, mode="auto", corr_first=None, do_poison=None, container=None):
     """mode 'fresh': new estimator objects; 'reuse': one long-lived object per max_order serves both public methods
     (order of the two varies), so that state leaking from one call into the next shows up; before some re-use calls the
     object first serves a call that fails midway; 'auto' draws all of this at random."""
@@ -86,13 +87,26 @@ def real_all(evs, max_order, mode="auto", corr_first=None, do_poison=None):
     else:
         m1 = MultiParticlePtCorrelations(max_order=max_order)
         m2 = MultiParticlePtCorrelations(max_order=max_order)
+    def events_arg():
+        """the sample as the caller may hold it: a list, a tuple, or a one-shot iterator over the events (a generator
+        streaming events from a file); `container` fixes the kind for replays"""
+        lst = [_particles(ev) for ev in evs]
+        kind = container if container is not None else _MODE_RNG.choice(["list"] * 5 + ["tuple", "iter", "generator"])
+        _LAST_CONTAINER.append(kind)
+        if kind == "tuple":
+            return tuple(lst)
+        if kind == "iter":
+            return iter(lst)
+        if kind == "generator":
+            return (e for e in lst)
+        return lst
     with np.errstate(all="ignore"):
         if corr_first:
-            c = m1.mean_pT_correlations([_particles(ev) for ev in evs], compute_error=False)
-            k = m2.mean_pT_cumulants([_particles(ev) for ev in evs], compute_error=False)
+            c = m1.mean_pT_correlations(events_arg(), compute_error=False)
+            k = m2.mean_pT_cumulants(events_arg(), compute_error=False)
         else:
-            k = m2.mean_pT_cumulants([_particles(ev) for ev in evs], compute_error=False)
-            c = m1.mean_pT_correlations([_particles(ev) for ev in evs], compute_error=False)
+            k = m2.mean_pT_cumulants(events_arg(), compute_error=False)
+            c = m1.mean_pT_correlations(events_arg(), compute_error=False)
     return [float(x) for x in c], [float(x) for x in k]
 
 
@@ -167,9 +181,15 @@ def exact_cumulants(C):
     return [L[k] * math.factorial(k) for k in range(1, K + 1)]
 
 
-def oracle_check(evs, max_order, rel=1e-6, mode="fresh", corr_first=None, do_poison=None):
+def oracle_check(evs, max_order, rel=1e-6, mode="fresh", corr_first=None, do_poison=None, container=None):
     """Returns None or (key, what, detail) when the *real code* disagrees with the definition."""
-    c, kap = real_all(evs, max_order, mode, corr_first, do_poison)
+    try:
+        c, kap = real_all(evs, max_order, mode, corr_first, do_poison, container)
+    except Exception as e:   # an admissible sample must not make the estimator raise
+        if not any(len(ev) >= 1 for ev in evs):
+            return None
+        return (f"raises-{type(e).__name__}", f"mean_pT_correlations / mean_pT_cumulants raised {type(e).__name__}: {e} on an admissible sample",
+                dict(exception=type(e).__name__))
     Cex = []
     for k in range(1, max_order + 1):
         n, d = exact_corr(evs, k)
@@ -280,7 +300,7 @@ def search(ctx, budget_s):
                                                how_to_replay="./check C13 --replay <this file>"))
                 break
         if r:
-            fresh = oracle_check(evs, mo, mode="fresh")
+            fresh = check_all_kinds(evs, mo)
             if fresh is None:
                 # correct on a fresh object, wrong on the re-used one: state leaks between calls
                 hist = _REUSED[mo][1][-3:]
@@ -289,7 +309,7 @@ def search(ctx, budget_s):
                                    how_to_replay="./check C13 --replay <this file>"))
             else:
                 evs = shrink(evs, mo, fresh[0])
-                r = oracle_check(evs, mo, mode="fresh") or fresh
+                r = check_all_kinds(evs, mo) or fresh
                 ctx.violation(r[0], r[1], dict(input=dict(events=evs, max_order=mo), detail=r[2],
                                                how_to_replay="./check C13 --replay <this file>"))
             break
@@ -319,6 +339,15 @@ def homogeneity_check(rng, mo):
     return None
 
 
+def check_all_kinds(evs, mo):
+    """fresh objects, the sample passed as list / tuple / one-shot iterator / generator: first failure or None"""
+    for kind in ("list", "tuple", "iter", "generator"):
+        r = oracle_check(evs, mo, mode="fresh", container=kind)
+        if r:
+            return (r[0], f"(events passed as {kind}) " + r[1], r[2])
+    return None
+
+
 def shrink(evs, mo, key):
     cur = [list(e) for e in evs]
     changed = True
@@ -327,17 +356,17 @@ def shrink(evs, mo, key):
         for i in range(len(cur)):
             if len(cur) > 1:
                 cand = cur[:i] + cur[i + 1:]
-                r = oracle_check(cand, mo)
+                r = check_all_kinds(cand, mo)
                 if r and r[0] == key:
                     cur = cand
                     changed = True
                     break
         for i in range(len(cur)):
             for j in range(len(cur[i])):
-                if len(cur[i]) > int(key.split("-")[-1]):
+                if len(cur[i]) > (int(key.split("-")[-1]) if key.split("-")[-1].isdigit() else 1):
                     cand = [list(e) for e in cur]
                     del cand[i][j]
-                    r = oracle_check(cand, mo)
+                    r = check_all_kinds(cand, mo)
                     if r and r[0] == key:
                         cur = cand
                         changed = True
@@ -375,7 +404,7 @@ def replay(ctx, path):
             r = oracle_check(conv(h["events"]), inp["max_order"], mode="reuse",
                              corr_first=h["order"].startswith("correlations"), do_poison=False) or r
     else:
-        r = oracle_check(conv(inp["events"]), inp["max_order"])
+        r = check_all_kinds(conv(inp["events"]), inp["max_order"])
     if r:
         print(f"VIOLATION property=C13 replay={path}")
         print(r[1])
